@@ -229,6 +229,45 @@ def make_classes():
     return MonDeque, MonStack, MonTape
 
 
+class CpuBudgetExceeded(BaseException):
+    """raised inside a run that has used more CPU time than any terminating
+    run of the workload comes near"""
+
+
+class cpu_budget:
+    """`with cpu_budget(sec) as w:` - a LOGICAL bound on one run: the timer
+    counts the CPU time this process spends in user mode (ITIMER_VIRTUAL), not
+    wall-clock time, so machine load does not move it. When it fires it
+    raises CpuBudgetExceeded in the body and keeps re-firing every 50 ms of
+    CPU (the VM's TRY / run_auth_scripts swallow BaseException). `w.fired`
+    tells the caller; the exception itself never leaves the block."""
+
+    def __init__(self, sec: float) -> None:
+        self.sec = sec
+        self.fired = 0
+        self.used = 0.0
+
+    def _handler(self, signum, frame):
+        self.fired += 1
+        raise CpuBudgetExceeded()
+
+    def __enter__(self):
+        import signal
+        import time
+        self._t0 = time.process_time()
+        self._old = signal.signal(signal.SIGVTALRM, self._handler)
+        signal.setitimer(signal.ITIMER_VIRTUAL, self.sec, 0.05)
+        return self
+
+    def __exit__(self, et, ev, tb):
+        import signal
+        import time
+        signal.setitimer(signal.ITIMER_VIRTUAL, 0, 0)
+        signal.signal(signal.SIGVTALRM, self._old or signal.SIG_DFL)
+        self.used = time.process_time() - self._t0
+        return et is not None and issubclass(et, CpuBudgetExceeded)
+
+
 class RecDict(dict):
     """Cache that logs every mutation (key, key type, op) in order."""
 
